@@ -163,7 +163,7 @@ func TestC09(t *testing.T) {
 			add(v, "allpresent")
 		}
 		c.Sample(sampleOf(cs, jobs))
-		return &RunCase{Case: cs, Jobs: jobs}
+		return &RunCase{Case: cs, Jobs: jobs, Model: modelIfSingle(cs, f)}
 	}, stdJudge)
 }
 
